@@ -647,7 +647,10 @@ impl<'a> Read<'a> for StrRead<'a> {
             // The input is assumed to be valid UTF-8 and the \x-escapes are
             // checked along the way, so don't need to check here.
             #[cfg(feature = "verif-hooks")]
-            assert!(str::from_utf8(bytes).is_ok(), "verif-hooks: ill-formed UTF-8 in StrRead::parse_r6rs_str");
+            assert!(
+                str::from_utf8(bytes).is_ok(),
+                "verif-hooks: ill-formed UTF-8 in StrRead::parse_r6rs_str"
+            );
             Ok(unsafe { str::from_utf8_unchecked(bytes) })
         })
     }
@@ -667,7 +670,10 @@ impl<'a> Read<'a> for StrRead<'a> {
             // The input is assumed to be valid UTF-8 and the \u-escapes are
             // checked along the way, so don't need to check here.
             #[cfg(feature = "verif-hooks")]
-            assert!(str::from_utf8(bytes).is_ok(), "verif-hooks: ill-formed UTF-8 in StrRead::parse_symbol");
+            assert!(
+                str::from_utf8(bytes).is_ok(),
+                "verif-hooks: ill-formed UTF-8 in StrRead::parse_symbol"
+            );
             Ok(unsafe { str::from_utf8_unchecked(bytes) })
         })
     }
